@@ -181,7 +181,12 @@ Hlength(int32 file_id, uint16 tag, uint16 ref)
     (void)tag;
     (void)ref;
     H4V_CHECK(file_id == RW_FID, "Hlength on the GR's file");
+#ifdef RW_HASDATA
+    /* callers only test the sign; a constant lets symbolic execution prune the other storage state */
+    return RW_HASDATA ? RW_DISKCAP : 0;
+#else
     return g_elem_len;
+#endif
 }
 static int32
 rw_open(int32 file_id, uint32 flags)
@@ -658,6 +663,10 @@ mk_image_io(int32 xdim, int32 ydim, int for_write)
     g_ri->img_dim.file_nt_subclass = file_subclass;
     g_ri->img_dim.il               = MFGR_INTERLACE_PIXEL;
     g_ri->img_dim.comp_tag         = comp_tag;
+#ifdef RW_CONV
+    g_pnsc                         = DFNTF_HDFDEFAULT;
+    g_ri->img_dim.file_nt_subclass = DFNTF_HDFDEFAULT + RW_CONV;
+#endif
     H4V_ASSUME(use_buf_drvr <= 1 && comp_img <= 1 && use_cr_drvr <= 1);
     g_ri->use_buf_drvr = use_buf_drvr;
     g_ri->use_cr_drvr  = use_cr_drvr;
@@ -671,9 +680,9 @@ mk_image_io(int32 xdim, int32 ydim, int for_write)
         g_ri->img_tag = DFTAG_NULL;
         g_ri->img_ref = DFREF_WILDCARD;
     }
-#ifdef RW_DATAONLY
-    has_data = 1;
-    H4V_ASSUME(tagref_assigned);
+#ifdef RW_HASDATA
+    has_data = RW_HASDATA;
+    H4V_ASSUME(!has_data || tagref_assigned);
 #endif
     g_has_data = has_data != 0;
     g_elem_len = has_data ? RW_PS * xdim * ydim : 0;
@@ -727,6 +736,13 @@ mk_fill_attr(void)
         g_ri->lattr_count = 0;
 }
 
+/* the id is a constant in all runs but the invalid-argument ones (a symbolic id makes every field access through the
+   looked-up image pointer a case split) */
+#ifdef RW_BADARGS
+#define RW_REQ_RIID(nd) (nd)
+#else
+#define RW_REQ_RIID(nd) RW_RIID
+#endif
 /* request: start in -1..4, stride in 0..3 (or no stride array), count in 0..3 */
 #define MK_REQUEST                                                                                                       \
     H4V_ND(int32, xdim);                                                                                                 \
@@ -738,7 +754,8 @@ mk_fill_attr(void)
     H4V_ND(int32, cx);                                                                                                   \
     H4V_ND(int32, cy);                                                                                                   \
     H4V_ND(int, stride_null);                                                                                            \
-    H4V_ND(int32, riid);                                                                                                 \
+    H4V_ND(int32, riid_nd);                                                                                              \
+    int32 riid = RW_REQ_RIID(riid_nd);                                                                                   \
     H4V_ASSUME(xdim >= 1 && xdim <= RW_MAXDIM && ydim >= 1 && ydim <= RW_MAXDIM);                                         \
     H4V_ASSUME(sx >= -1 && sx <= RW_MAXDIM && sy >= -1 && sy <= RW_MAXDIM);                                              \
     H4V_ASSUME(tx >= 0 && tx <= RW_MAXSTRIDE && ty >= 0 && ty <= RW_MAXSTRIDE);                                          \
@@ -794,9 +811,6 @@ h_GRreadimage(void)
     g_fill_item = g_j * cx + g_i;
     g_fill_exp  = g_attr_present ? g_attr_data[g_c * RW_CS + g_bb] : 0;
     g_doff      = RW_PS * ((sy + g_j * ety) * xdim + sx + g_i * etx) + g_c * RW_CS + g_bb;
-#ifdef RW_NOCONV
-    g_ri->img_dim.file_nt_subclass = (uint8)g_pnsc;
-#endif
     int r       = GRreadimage(riid, start, stride, count, data);
     H4V_COVER(r == SUCCEED && g_has_data && tx == 1 && ty == 1 && sx == 0 && sy == 0 && cx == xdim && cy == ydim && !stride_null,
               "read: whole image");
@@ -828,11 +842,8 @@ h_GRwriteimage(void)
     H4V_ND(unsigned, fill_img);
     H4V_ND(int, has_fill_value);
     H4V_ASSUME(fill_img <= 1);
-#ifdef RW_NOFILL
-    H4V_ASSUME(g_has_data || !fill_img);
-#endif
-#ifdef RW_FILL
-    H4V_ASSUME(!g_has_data && fill_img);
+#ifdef RW_FILLIMG
+    fill_img = RW_FILLIMG;
 #endif
     g_ri->fill_img   = fill_img;
     g_ri->store_fill = FALSE;
@@ -852,10 +863,12 @@ h_GRwriteimage(void)
     g_fill_item = g_x;
     g_fill_exp  = has_fill_value ? fillv[g_c * RW_CS + g_bb] : 0;
     int r       = GRwriteimage(riid, start, stride, count, wdata);
+#if !defined(RW_HASDATA) || RW_HASDATA == 1
     H4V_COVER(r == SUCCEED && g_has_data && tx == 2 && ty == 3 && cx > 1 && !stride_null, "write: existing image, strides 2 x 3");
     H4V_COVER(r == SUCCEED && g_has_data && stride_null && cx < xdim && cy > 1, "write: existing image, solid block");
+#endif
     H4V_COVER(r == SUCCEED && tx == 1 && ty == 1 && sx == 0 && sy == 0 && cx == xdim && cy == ydim && !stride_null, "write: whole image");
-#ifndef RW_NOFILL
+#if (!defined(RW_HASDATA) || RW_HASDATA == 0) && (!defined(RW_FILLIMG) || RW_FILLIMG == 1)
     H4V_COVER(r == SUCCEED && !g_has_data && fill_img && stride_null && cx < xdim && cy < ydim, "write: new image, solid block with fill");
     H4V_COVER(r == SUCCEED && !g_has_data && fill_img && !stride_null && tx == 2 && ty == 2 && cy > 1, "write: new image, strided with fill");
 #endif
